@@ -65,6 +65,8 @@ struct OpRec
     int64_t maxrd = -1, rds = 0, advs = 0, steps = 0, lsteps = 0, allocs = 0, lex_calls = 0;
     int64_t oob_read = 0, oob_iter = 0, oob_view = 0, bounds_bad = 0;
     bool alloc_fault_fired = false, lex_fault_fired = false, budget_hit = false;
+    bool alloc_fault_in_functor = false;
+    int functor_depth = 0;
     // functor history
     struct Red { int rule; uint64_t digest; uint64_t sdigest; int ctx; uint32_t seq; };
     std::vector<Red> reds;
@@ -132,5 +134,8 @@ void node_assign_over(const void* addr, uint32_t old_vid, bool held_value);
 
 // allocator control
 void set_alloc_tracking(bool on);
+void functor_enter();
+void functor_leave();
+int64_t task_live(int task);             // live ledgered objects of a task (after the run)
 
 }  // namespace simrt
